@@ -36,12 +36,12 @@ CALCS = ["vasp", "qe", "abinit", "wien2k", "elk", "siesta", "cp2k", "crystal", "
 
 def gen_cases(tier, seed):
     rng = np.random.default_rng([seed, 16])
-    names = ["rocksalt", "cscl", "zincblende", "afm_cr", "afm_cr_nc", "tric2", "rutile", "wurtzite", "sc", "fm_fe_tet", "perovskite", "mono_p", "rhomb_bi", "rhomb_hex", "hcp"]  # (trigonal groups: Hall symbols with a double quote)
+    names = ["rocksalt", "cscl", "zincblende", "afm_cr", "afm_cr_nc", "tric2", "rutile", "wurtzite", "sc", "fm_fe_tet", "perovskite", "mono_p", "rhomb_bi", "rhomb_hex", "hcp", "afm_nio"]  # (trigonal groups: Hall symbols with a double quote)
     cases = []
     n = 64 if tier == "quick" else 400
     for i in range(n):
         name = names[i % len(names)]
-        mag = name in ("afm_cr", "afm_cr_nc", "fm_fe_tet")
+        mag = name in ("afm_cr", "afm_cr_nc", "fm_fe_tet", "afm_nio")  # afm_nio: moments +1/-1 on Ni and exactly 0 on O (a value that is "falsy" in Python)
         cases.append({"kind": "saveload", "crystal": {"name": name, "order": ["asis", "random"][rng.integers(2)], "order_seed": int(rng.integers(100)), "ext_symbols": bool(rng.integers(3) == 0) and not mag},
                       "smat": [np.eye(3, dtype=int).tolist(), np.diag([2, 1, 1]).tolist(), [[1, 1, 0], [-1, 1, 0], [0, 0, 1]]][rng.integers(3)],
                       "pmat": ["P", "centring"][rng.integers(2)], "calculator": CALCS[i % len(CALCS)], "dataset": ["type1", "type1", "type2", "none"][rng.integers(4)],
